@@ -14,6 +14,9 @@
 #define private public
 #include "gaussquad.hpp"
 #undef private
+#ifdef LIBECPINT_VERIF
+#include "verif_hooks.hpp"
+#endif
 using namespace libecpint;
 
 struct P { int k; double z, c; };
@@ -44,9 +47,17 @@ int main(int argc, char** argv) {
     }
     std::function<double(double, const double*, int)> fn = fint;
     auto res = g.integrate(fn, (const double*)&prm, tol, start, end);
+    // counterfactual for the attribution of recorded findings: the same call with the first one / two acceptances deferred
+    double d1 = res.first, d2 = res.first; int c1 = res.second ? 1 : 0, c2 = c1;
+#ifdef LIBECPINT_VERIF
+    verif::ctl().quad_defer = 1; { auto r1 = g.integrate(fn, (const double*)&prm, tol, start, end); d1 = r1.first; c1 = r1.second ? 1 : 0; }
+    verif::ctl().quad_defer = 2; { auto r2 = g.integrate(fn, (const double*)&prm, tol, start, end); d2 = r2.first; c2 = r2.second ? 1 : 0; }
+    verif::ctl().quad_defer = 0;
+#endif
     std::fprintf(f, "case %s\n", id.c_str());
     std::fprintf(f, "int type %d\nint points %d\nint maxN %d\nint M %d\nint kind %d\nint k %d\nint start %d\nint end %d\nint converged %d\n", type, points, g.maxN, g.M, kind, k, start, end, res.second ? 1 : 0);
     std::fprintf(f, "mat params 1 6 %a %a %a %a %a %a\n", tol, zt, pt, z, c, res.first);
+    std::fprintf(f, "mat defer 1 4 %a %a %a %a\n", d1, (double)c1, d2, (double)c2);
     auto putv = [&](const char* nm, const std::vector<double>& v) { std::fprintf(f, "mat %s 1 %d", nm, (int)v.size()); for (double d : v) std::fprintf(f, " %a", d); std::fprintf(f, "\n"); };
     putv("x0", x0); putv("w0", w0); putv("x", g.x); putv("w", g.w);
     std::fprintf(f, "end\n");
